@@ -27,6 +27,7 @@
 #include <iomanip>
 #include <vector>
 #include <cstring>
+#include <cfloat>
 #ifdef HAVE_CONTRIB
 #  include "lib/ebus/contrib/contrib.h"
 #endif
@@ -1197,10 +1198,13 @@ result_t NumberDataType::parseInput(const string inputStr, unsigned int* parsedV
       const char* str = inputStr.c_str();
       char* strEnd = nullptr;
       double dvalue = strtod(str, &strEnd);
-      if (errno == ERANGE || strEnd == nullptr || strEnd == str || *strEnd != 0) {
-        return RESULT_ERR_INVALID_NUM;  // invalid value
+      if (errno == ERANGE || strEnd == nullptr || strEnd == str || *strEnd != 0 || dvalue != dvalue) {
+        return RESULT_ERR_INVALID_NUM;  // invalid value (including NaN)
       }
       if (m_divisor < 0) {
+        if (fabs(dvalue) > FLT_MAX) {
+          return RESULT_ERR_OUT_OF_RANGE;  // the multiplied value could not be decoded again
+        }
         dvalue /= -m_divisor;
       } else if (m_divisor > 1) {
         dvalue *= m_divisor;
